@@ -9,9 +9,9 @@ step()`, the condition re-read from the clock before every step. Hence `run()` =
 `run_until_eq_run`, `vrun_eq_iter`), and a context restored at any boundary and continued with `run()` ends where the
 uninterrupted run ends (C18 `resume_eq`) - also when the global step changes during the run. A step COUNT computed once
 up front (two independent seeded changes, C01-4 and C18-3, did exactly that) is not this loop and breaks the obligation.
-PARTIAL: the second copy of the loop (`backup_freq` given: wall-clock reads decide when `write_backup` is called) is
-evaluated by the same semantics but only the branch without backups is proved here; the backup branch is tied by the
-generated table `runLoopCmp`, by C18 `runB_*` and by correspondence. -/
+The second copy of the loop (`backup_freq` given: wall-clock reads decide when `write_backup` is called) is proved too,
+for ANY wall clock (`engineRun_backup_refines`): the simulation ends where the run without backups ends and the backups
+written are, in order, worlds at step boundaries (a sublist of `VSys.runB`) - the premise of C18 `resume_eq`. -/
 namespace Viv.Props.C01Src
 open Viv.Py Viv.Engine
 
@@ -55,6 +55,7 @@ def eworld (S : VSys W) (stop : Int) (wallclock : Nat → Int) (fuel : Nat) : Wo
   int := .int
   str := .str
   list := .list
+  newList vs := pure (.list vs)
   tuple := .list
   global n := if n == "time" then pure .wallFn else throw "NameError"
   truthy
@@ -141,4 +142,87 @@ theorem engineRun_refines (S : VSys W) (stop : Int) (wallclock : Nat → Int) (f
       simp [evalBlock, evalStmt, evalExpr, evalArgs, evalKws, eworld, eGetAttr, h]
   subst hr
   simp [iterWhile_run, eworld]
+
+/-! ### the second copy of the loop: `backup_freq` given -/
+
+/-- one pass of the backup loop: the simulation takes one step; then, depending on the wall clock, the world as it is at
+that boundary is written as a backup, or nothing is -/
+def BPass (S : VSys W) (s s' : St W) : Prop :=
+  s'.w = S.step s.w ∧ (s'.backups = s.backups ∨ s'.backups = s.backups ++ [s'.w])
+
+/-- the loop invariant of the backup loop: the arguments are where they were, `time_to_save` is some wall-clock time -/
+def BInv (freq : Int) (loc : Locals EVv) (_ : St W) : Prop :=
+  loc.get "self" = some EVv.self ∧ loc.get "backup_path" = some EVv.path ∧ loc.get "backup_freq" = some (EVv.wall freq) ∧
+    ∃ t, loc.get "time_to_save" = some (EVv.wall t)
+
+theorem reach_backups (S : VSys W) (stop : Int) : ∀ (fuel : Nat) (s s' : St W),
+    Reach (fun s : St W => decide (S.time s.w < stop)) (BPass S) fuel s s' →
+    s'.w = (S.run stop fuel s.w).2 ∧ ∃ bs, s'.backups = s.backups ++ bs ∧ bs.Sublist (S.runB stop fuel s.w).1
+  | 0, s, s', h => by
+    cases h
+    exact ⟨rfl, [], by simp, by simp [VSys.runB]⟩
+  | fuel + 1, s, s', h => by
+    cases h with
+    | done _ _ hc =>
+      have : ¬ S.time s.w < stop := by simpa using hc
+      exact ⟨by simp [VSys.run, this], [], by simp, by simp⟩
+    | step _ _ s1 _ hc hr hrest =>
+      have hlt : S.time s.w < stop := by simpa using hc
+      obtain ⟨hw, bs, hb, hsub⟩ := reach_backups S stop fuel s1 s' hrest
+      obtain ⟨h1, h2⟩ := hr
+      refine ⟨by simp [VSys.run, hlt, hw, h1], ?_⟩
+      simp only [VSys.runB, hlt, if_true]
+      rcases h2 with h2 | h2
+      · exact ⟨bs, by rw [hb, h2], by rw [h1] at hsub; exact hsub.cons _⟩
+      · refine ⟨s1.w :: bs, by rw [hb, h2]; simp, ?_⟩
+        rw [h1] at hsub ⊢
+        exact hsub.cons_cons _
+
+/-- `SimulationContext.run(backup_path, backup_freq)` as written, for ANY wall clock: the simulation ends exactly where
+the run without backups ends (`VSys.run`), and the backups written during the call are, in order, a selection of the
+worlds at the step boundaries (`VSys.runB` = the world after every completed step) - a backup is never taken inside a
+step, and writing one changes nothing the run depends on. Which boundaries are selected is the wall clock's business. -/
+theorem engineRun_backup_refines (S : VSys W) (stop : Int) (wallclock : Nat → Int) (fuel : Nat) (st : St W)
+    (freq : Int) (hfreq : freq ≠ 0) :
+    ∃ st', runM (Gen.Src.engineRun.run (eworld S stop wallclock fuel)
+        [("self", .self), ("backup_path", .path), ("backup_freq", .wall freq)]) st = (.ok EVv.none, st') ∧
+      st'.w = (S.run stop fuel st.w).2 ∧
+      ∃ bs, st'.backups = st.backups ++ bs ∧ bs.Sublist (S.runB stop fuel st.w).1 := by
+  rw [runM_func]
+  simp only [Gen.Src.engineRun]
+  rw [runM_block_cons, evalStmt]
+  simp only [runM_bind]
+  conv in (runM (evalExpr _ _ _) _) => simp [evalExpr]
+  dsimp only
+  have hfb : (freq != 0) = true := by simpa using hfreq
+  conv in (runM ((eworld S stop wallclock fuel).truthy _) _) => simp [eworld, hfb]
+  dsimp only
+  simp only [if_true]
+  pystep [eworld]
+  rw [runM_block_cons, evalStmt]
+  have hwl : ∀ c b l, (eworld S stop wallclock fuel).whileLoop c b l = whileFuel c b fuel l := fun _ _ _ => rfl
+  rw [hwl]
+  generalize hrun : runM (whileFuel _ _ _ _) _ = r
+  obtain ⟨loc', st', hr, _, hreach⟩ : ∃ loc' st', r = (.ok (.next, loc'), st') ∧
+      BInv freq loc' st' ∧
+      Reach (fun s : St W => decide (S.time s.w < stop)) (BPass S) fuel
+        { w := st.w, reads := st.reads + 1, backups := st.backups } st' := by
+    rw [← hrun]
+    refine runM_whileRel (BInv freq) _ (BPass S) _ _ ?hcond ?hbody fuel _ _ ?hinv
+    case hinv => simp [BInv]
+    case hcond =>
+      intro loc st1 h
+      simp [evalExpr, eworld, eGetAttr, h.1]
+    case hbody =>
+      intro loc st1 h hc
+      obtain ⟨hs, hp, hf, t, ht⟩ := h
+      pystep [eworld, eGetAttr, hs]
+      by_cases hdue : wallclock st1.reads ≥ t
+      · pystep [eworld, eGetAttr, hs, hp, hf, ht, hdue]
+        exact ⟨_, _, by rw [runM_block_nil], by simp [BInv, hs, hp, hf], by simp [BPass]⟩
+      · pystep [eworld, eGetAttr, hs, hp, hf, ht, hdue]
+        exact ⟨_, _, by rw [runM_block_nil], ⟨hs, hp, hf, t, ht⟩, by simp [BPass]⟩
+  subst hr
+  obtain ⟨hw, bs, hb, hsub⟩ := reach_backups S stop fuel _ _ hreach
+  exact ⟨st', by simp [eworld], hw, bs, hb, hsub⟩
 end Viv.Props.C01Src
